@@ -412,6 +412,7 @@ class SimNet:
         self.timer_spins = 0
         self.spin_sources = {}
         self.stale_address_drops = 0
+        self.addresses_seen_by_server = set()
         self.rebound_at = None  # index of the first client datagram that left from the new address
         self.rebound_again_at = None
         self.forged = 0
@@ -610,7 +611,10 @@ class SimNet:
             # a NAT rebinding kills the old binding: once the client's datagrams leave from its new address, whatever the
             # server still sends to an address the client does not have (any more / yet) goes nowhere
             current = CLIENT_ADDR if self.rebound_at is None else (CLIENT_ADDR2 if self.rebound_again_at is None else CLIENT_ADDR3)
-            if addr != current:
+            if addr != current and current in self.addresses_seen_by_server:
+                # (only once a datagram from the new address has reached the server: until then the server cannot know
+                # better, and a silent client whose first datagram from the new address was lost would be cut off for
+                # good by the network alone — the old binding lingers until the new one has been used end to end)
                 rec.fate = "blackholed (sent to %r, the client is at %r)" % (addr, current)
                 self.stale_address_drops += 1
                 return
@@ -707,6 +711,7 @@ class SimNet:
                     if not self._ensure_server(rec.data, client_addr(int(alt))):
                         continue
                     dst, src = self.server, client_addr(int(alt))
+                    self.addresses_seen_by_server.add(src)
                 else:
                     dst, src = self.client, SERVER_ADDR
                 data = rec.data
